@@ -11,6 +11,8 @@ FLAVOURS = {
  "plain": "Plain, realistic faults: the kind of slip a maintainer makes in a routine PR (an off-by-one in a bound, the wrong field or operand, a forgotten branch, a mis-ordered pair of statements, a wrong constant, a condition that is too weak or too strong).",
  "twosite": "Faults made of TWO cooperating edits in different functions (or different branches) that each look harmless and locally correct alone - e.g. a helper whose contract is subtly changed together with a caller that relied on the old contract, an invariant relaxed at one site and exploited at another, a field whose meaning shifts by a constant at its writer but not at one of its readers. Removing either edit alone should restore correct behaviour or at least make the change look different.",
  "boundary": "Faults that manifest ONLY at a boundary or extreme argument / state and are correct everywhere else: 0, 1, len-1, len, capacity, capacity+1, usize::MAX, isize::MAX+k, empty buffers or slices, exactly-full buffers, zero-length chunks in the middle of a sequence, a cursor position past the end, an offset that is exactly equal to a length, nbytes == 0 or 8, the last representable value of a bit field. Typical shapes: `<` vs `<=`, a guard that forgets the equal case, a fast path for the empty / full case that skips a step the general path performs, saturating vs wrapping vs checked arithmetic at the extreme.",
+ "config": "Faults that manifest ONLY in a particular build configuration while the default debug configuration used by the test suite stays correct: `--release` (no debug assertions, no overflow checks: something that a debug_assert!, an overflow check or a debug-only branch was silently relied upon for), `--no-default-features` (no_std: cfg(not(feature = \"std\")) twins such as abort(), missing chunks_vectored / Reader / Writer, core vs std paths), `--features extra-platforms` (portable-atomic types instead of core atomics), `--features serde`, or `RUSTFLAGS=--cfg loom`. The change may touch a cfg-gated twin, a cfg!(..) branch, a #[cfg] attribute, or code whose behaviour differs by profile. The demonstration must fail under the exact command of that configuration (e.g. `cargo test --release --test demo_seeded`, `cargo test --no-default-features --test demo_seeded`) and pass there on the unmodified crate; say which command.",
+ "race": "Faults that need a specific interleaving of two or three threads to manifest (never visible single-threaded): a check-then-act window, a decision taken on a stale value, an update that is not a single atomic read-modify-write, a release that happens before the last use, a winner/loser of a compare-exchange handled asymmetrically, a memory ordering that is too weak for what the code does next. Prefer demonstrations that force the interleaving deterministically (e.g. a global allocator or a Buf/AsRef impl used as a schedule point, barriers) and fail under plain `cargo test`; if only Miri can see it, say so and give the command.",
  "disguised": "Faults disguised as cleanups: a helper extracted and shared, control flow reshaped, a std API swapped in, a de-duplication - with the behaviour change hidden inside what reads like a refactoring.",
 }
 def main():
